@@ -6,7 +6,9 @@ from the source through `Gen/LayoutsR`), an independent renderer of the publishe
 `load (specRender m) = ok m` for every model in an explicit domain.
 -/
 import Iodata.Lemmas.FmtR.GaussianLog
+import Iodata.Lemmas.FmtR.Vasp
 import Iodata.Gen.LayoutsR
+import Iodata.Gen.Layouts
 
 namespace Iodata.Props.C03Readers
 open Iodata.Chars Iodata.Decimal Iodata.Fmt Iodata.FmtR Iodata.Gen.LayoutsR
@@ -64,5 +66,51 @@ matrix two -/
 example : GLog.FitsTwo GLog.g09 ⟨true, 131980, -6⟩ ∧ GLog.FitsTwo GLog.g09 ⟨false, 999999, 93⟩ ∧
     (GLog.specTwo GLog.g09 5 (fun _ _ => GLog.zero)).length = 6 ∧
     (GLog.specTwo GLog.g09 6 (fun _ _ => GLog.zero)).length = 9 := by decide +kernel
+
+/-! ## VASP CHGCAR / LOCPOT -/
+
+/-- T1: the statements of `_load_vasp_header`, `_load_vasp_grid` and of the two `load_one` are the ones the model
+transcribes (loop nest `i2, i1, i0` around `cube_data[i0, i1, i2]`, `axes=cellvecs / shape.reshape(-1, 1)`,
+`/= volume(cellvecs)` for CHGCAR, `*= electronvolt` for LOCPOT), with the constants `['s']`, `['c', 'k']`, `[:3]`. -/
+theorem vasp_source_shape : vaspSkel = Vasp.expectedSkel ∧ Vasp.LayoutOK vaspL := by decide +kernel
+
+/-- Header (shared with POSCAR): title, scaling factor, the three lattice vectors as rows, element symbols expanded
+by their counts, the optional `Selective dynamics` line, the Direct/Cartesian switch and one position per atom (flags
+after the third number ignored) are loaded exactly as printed. -/
+theorem vasp_header_spec (L : Vasp.Layout) (T : Tables) (S : Vasp.Spec) (m : Vasp.Model) (h : Vasp.HeaderDom L T S m)
+    (rest : List Str) : Vasp.loadHeader L T (Vasp.specHeader T S m ++ rest) = .ok (m.header, rest) :=
+  Vasp.loadHeader_spec L T S m h rest
+
+/-- Grid, **every shape and every line length**: a file of the published layout (values cut into lines in any way,
+ragged last line included) loads as its header, its shape, and a cube whose element `(i, j, k)` is the
+`(i + nx·(j + ny·k))`-th printed value — x is the fastest index; reading stops after the last grid value. -/
+theorem vasp_grid_spec (L : Vasp.Layout) (T : Tables) (S : Vasp.Spec) (hd : 0 < S.valD) (m : Vasp.Model)
+    (hh : Vasp.HeaderDom L T S m) (hg : Vasp.GridDom S m) :
+    ∃ g, Vasp.loadGrid L T (Vasp.specRender T S m) = .ok (g, m.tail) ∧ g.hdr = m.header ∧ g.shape = m.shape ∧
+      ∀ i j k, i < m.shape.1 → j < m.shape.2.1 → k < m.shape.2.2 →
+        some (getA Vasp.zero g.data (i, j, k)) = m.vals[i + m.shape.1 * (j + m.shape.2.1 * k)]? :=
+  ⟨_, Vasp.loadGrid_spec L T S hd m hh hg, rfl, rfl,
+    fun i j k hi hj hk => Vasp.getA_grid m.shape m.vals hg.2.1 i j k hi hj hk⟩
+
+/-- the documented factor: `cube.data[i, j, k]` is the stored value divided by the cell volume `|det(cellvecs)|`
+(CHGCAR holds ρ·V) or times `electronvolt` (LOCPOT) -/
+theorem vasp_data_factor (U : Vasp.Units) (g : Vasp.Grid) (p : Vasp.Idx3) :
+    Vasp.dataAt U .chgcar g p = (getA Vasp.zero g.data p).val * (1 / Vasp.cellVolume U g.hdr) ∧
+    Vasp.dataAt U .locpot g p = (getA Vasp.zero g.data p).val * U.electronvolt := ⟨rfl, rfl⟩
+
+/-- `axes` rows: lattice vector `i` (in bohr, scaled) divided by the number of grid points along `i` -/
+theorem vasp_axes_rows (U : Vasp.Units) (h : Vasp.Header) (s : Vasp.Idx3) (d : List (Vasp.Idx3 × Num)) (a b c : List Rat)
+    (hc : Vasp.cellvecs U h = [a, b, c]) :
+    Vasp.axes U ⟨h, s, d⟩ = [a.map (· / (s.1 : Rat)), b.map (· / (s.2.1 : Rat)), c.map (· / (s.2.2 : Rat))] := by
+  simp [Vasp.axes, hc, Vasp.shapeList]
+
+/-- a fixed number `k > 0` of values per line (last line ragged) is one of the admitted line divisions -/
+theorem vasp_chunk_spec (k : Nat) (hk : 0 < k) (xs : List Num) :
+    (Vasp.chunk k xs).flatten = xs ∧ ∀ c ∈ Vasp.chunk k xs, c ≠ [] ∧ c.length ≤ k :=
+  Vasp.chunk_spec k hk xs
+
+/-- non-vacuity: a 2×1×3 grid on a triclinic cell, selective dynamics, values 4 per line (ragged), is in the domain -/
+example : Vasp.HeaderDom vaspL Iodata.Gen.Layouts.tables Vasp.vasp5 Vasp.exampleModel ∧ Vasp.GridDom Vasp.vasp5 Vasp.exampleModel := by
+  decide +kernel
 
 end Iodata.Props.C03Readers
